@@ -29,7 +29,7 @@ theorem dropped_closes (g : Cfg) (hdrop : g.sockHeld = false) (hfix : g.fqDropsS
     (hnohs : ∀ c, g.handshaking c = false) (c : Nat) : Freed g (transport c) := by
   have fsock : Freed g sock := ⟨_, by simp [root, hdrop], by intro y hy; cases y <;> simp [owns] at hy⟩
   have fhs : ∀ c, Freed g (hsTask c) := fun c =>
-    ⟨_, by simp [root, hnohs], by intro y hy; cases y <;> simp [owns] at hy⟩
+    ⟨_, by simp [root, hnohs], by intro y hy; cases y <;> simp [owns, hnohs] at hy⟩
   have fstop : ∀ e, Freed g (stopTx e) := fun e =>
     ⟨_, by simp [root], by intro y hy; cases y <;> simp [owns] at hy; exact fsock⟩
   have faccept : ∀ e, Freed g (acceptTask e) := fun e =>
@@ -56,15 +56,76 @@ theorem dropped_closes (g : Cfg) (hdrop : g.sockHeld = false) (hfix : g.fqDropsS
     · subst hy; exact frh _
     · subst hy; exact fwh _⟩
 
-/-- and a pending handshake is *not* closed by dropping/closing the socket (D14) -/
-theorem pending_handshake_survives (g : Cfg) (c : Nat) (hhs : g.handshaking c = true) :
-    ¬ Freed g (rhalf c) := by
+/-- before the repair (D14): a pending handshake is *not* closed by dropping/closing the socket —
+the detached task keeps both halves alive for as long as the peer stalls -/
+theorem pending_handshake_survives (g : Cfg) (c : Nat) (hhs : g.handshaking c = true)
+    (hfix : g.hsStops = false) : ¬ Freed g (rhalf c) := by
   intro h
   cases h with
   | intro _ _ howners =>
     have := howners (hsTask c) (by simp [owns, hhs])
     cases this with
-    | intro _ hroot _ => exact hroot (by simp [root, hhs])
+    | intro _ hroot _ => exact hroot (by simp [root, hhs, hfix])
+
+/-- after the repair: a handshake task is owned by its listener's stop sender, so once the socket
+is dropped (or closed) a connection still in its handshake is closed too -/
+theorem pending_handshake_closed (g : Cfg) (hdrop : g.sockHeld = false) (hfix : g.hsStops = true)
+    (c : Nat) (hhs : g.handshaking c = true) (hnr : g.registered c = false) :
+    Freed g (transport c) := by
+  have fsock : Freed g sock := ⟨_, by simp [root, hdrop], by intro y hy; cases y <;> simp [owns] at hy⟩
+  have fstop : ∀ e, Freed g (stopTx e) := fun e =>
+    ⟨_, by simp [root], by intro y hy; cases y <;> simp [owns] at hy; exact fsock⟩
+  have fhs : Freed g (hsTask c) :=
+    ⟨_, by simp [root, hfix], by
+      intro y hy; cases y <;> simp [owns] at hy
+      exact fstop _⟩
+  have frh : Freed g (rhalf c) :=
+    ⟨_, by simp [root], by
+      intro y hy; cases y <;> simp [owns, hnr] at hy
+      · obtain ⟨rfl, _⟩ := hy; exact fhs⟩
+  have fwh : Freed g (whalf c) :=
+    ⟨_, by simp [root], by
+      intro y hy; cases y <;> simp [owns, hnr] at hy
+      · obtain ⟨rfl, _⟩ := hy; exact fhs⟩
+  exact ⟨_, by simp [root], by
+    intro y hy; cases y <;> simp [owns] at hy
+    · subst hy; exact frh
+    · subst hy; exact fwh⟩
+
+/-- both repairs together: once the socket is dropped or closed EVERY connection is closed —
+registered or still in its handshake, whatever wakers were armed -/
+theorem dropped_closes_all (g : Cfg) (hdrop : g.sockHeld = false) (hfix : g.fqDropsStreams = true)
+    (hfix14 : g.hsStops = true) (c : Nat) : Freed g (transport c) := by
+  have fsock : Freed g sock := ⟨_, by simp [root, hdrop], by intro y hy; cases y <;> simp [owns] at hy⟩
+  have fstop : ∀ e, Freed g (stopTx e) := fun e =>
+    ⟨_, by simp [root], by intro y hy; cases y <;> simp [owns] at hy; exact fsock⟩
+  have fhs : ∀ c, Freed g (hsTask c) := fun c =>
+    ⟨_, by simp [root, hfix14], by
+      intro y hy; cases y <;> simp [owns] at hy
+      exact fstop _⟩
+  have faccept : ∀ e, Freed g (acceptTask e) := fun e =>
+    ⟨_, by simp [root], by
+      intro y hy; cases y <;> simp [owns] at hy
+      subst hy; exact fstop _⟩
+  have fback : Freed g backend :=
+    ⟨_, by simp [root], by
+      intro y hy; cases y <;> simp [owns] at hy
+      · exact fsock
+      · exact faccept _
+      · exact fhs _⟩
+  have frh : ∀ c, Freed g (rhalf c) := fun c =>
+    ⟨_, by simp [root], by
+      intro y hy; cases y <;> simp [owns, hfix, hdrop] at hy
+      · exact fhs _⟩
+  have fwh : ∀ c, Freed g (whalf c) := fun c =>
+    ⟨_, by simp [root], by
+      intro y hy; cases y <;> simp [owns] at hy
+      · exact fback
+      · exact fhs _⟩
+  exact ⟨_, by simp [root], by
+    intro y hy; cases y <;> simp [owns] at hy
+    · subst hy; exact frh _
+    · subst hy; exact fwh _⟩
 
 end Zmq.Own
 
